@@ -42,6 +42,7 @@ func (r *Rng) Pick(ws []int) int {
 // Profile steers the generator for one property / tier.
 type Profile struct {
 	Prop     string
+	Tier     string
 	Stmts    [2]int // number of statements in the main timeline
 	Tables   [2]int
 	DBs      [2]int
@@ -848,7 +849,7 @@ func (g *gen) genCont(m *Model, depth int) *Plan {
 func Generate(pf *Profile, seed uint64) *Plan {
 	r := NewRng(seed)
 	g := &gen{r: r, pf: pf, m: NewModel(), tags: map[string]int64{}}
-	p := &Plan{Prop: pf.Prop, Seed: seed}
+	p := &Plan{Prop: pf.Prop, Seed: seed, Tier: pf.Tier}
 	p.Knobs = g.pickKnobs()
 	n := r.Range(pf.Stmts[0], pf.Stmts[1])
 	small := p.Knobs.CacheCap > 0 && p.Knobs.CacheCap < 1000
